@@ -312,6 +312,15 @@ def _m_format(it, v, args, kwargs, node):
 def _m_join(it, v, args, kwargs, node):
     arg = it.resolve(args[0])
     sep_len = v.length()
+    if isinstance(arg, ListV) and arg.items is None and it.store.decide_eq0(sep_len) is True:
+        from .loops import list_joined
+        j = list_joined(it, arg)
+        if j is not None and j.kind == v.kind:
+            # non-empty list of elements of at least min_elem characters: the text is not empty
+            m = getattr(arg, 'min_elem', None)
+            if m and arg.len is not None and it.store.prove_ge0(arg.len - 1):
+                it.store.assume_ge0(j.length() - m)
+            return j
     if isinstance(arg, ListV) and arg.items is not None:
         out = SeqV(v.kind, ())
         for i, x in enumerate(arg.items):
@@ -376,6 +385,16 @@ def _l_append(it, v, args, kwargs, node):
             v.len = v.len + 1
         if v.elem is None:
             v.elem = args[0]
+        a0 = it.resolve(args[0])
+        j = getattr(v, 'joined', None)
+        if j is not None:
+            if isinstance(a0, SeqV) and a0.kind == j.kind:
+                v.joined = seqops.concat(it, j, a0)
+                lo = it.store.lo(a0.length())
+                m = getattr(v, 'min_elem', None)
+                v.min_elem = (lo if m is None else min(m, lo)) if (lo is not None and (m is not None or not getattr(v, 'len_head', None))) else (min(m, lo) if m is not None and lo is not None else None)
+            else:
+                v.joined = None
     v.order = None
     return ConstV(None)
 
